@@ -31,7 +31,8 @@ STEMS = ["", "password ", "secret ", "snmp-server user ", "key ", "fe80:", "$1$"
          "set community "]
 FILLERS = ["a\\b", "\\1", "\\g<1>", "$1$", "$1$123456789$x", "$1$$x", "$9$", "$9$!", "$9$abc",
            "$6$", '"', "[", "\\", "$9$" + "Q" * 3, "$1$abc", "$9$ab_cdefghij", "$9$Be4EhyVb2GDékevYo",
-           "$9$aaaa٣", "$9$_aaaa", "$1$ab_$x", "$6$é", "٣٣.1.2.3", "1.2.3.٤", "fe80::٣"]
+           "$9$aaaa٣", "$9$_aaaa", "$6$rounds=500$ab$cd", "$6$rounds=10$Q9vP$Zk3v", "$6$rounds=99999999999$ab$cd",
+           "$6$rounds=$a$b", "$6$rounds=0$a$b", "$1$rounds=5$a$b", "$6$$", "$6$a$", "$1$a$", "$9$$", "$5$rounds=5$a$b", "$1$ab_$x", "$6$é", "٣٣.1.2.3", "1.2.3.٤", "fe80::٣"]
 FEATURES_ALL = dict(anon_pwd=True, anon_ip=True, sensitive_words=["seattle", "xyzzy"],
                     as_numbers=["65001", "12"], reserved_words=None)
 
